@@ -300,6 +300,25 @@ pub struct FL {
     pub id: u8,
 }
 
+/// Walking up with `SpanRef::parent()` must visit exactly the spans `scope()` yields (both are
+/// compared with the model through the scope); a difference is made visible in the logged kind.
+fn parent_walk_kind<'a, R: LookupSpan<'a>>(kind: &str, start: Option<tracing_subscriber::registry::SpanRef<'a, R>>, scope: &[String]) -> String {
+    let mut chain = vec![];
+    let mut cur = start;
+    while let Some(s) = cur {
+        chain.push(s.name().to_string());
+        if chain.len() > 16 {
+            break;
+        }
+        cur = s.parent();
+    }
+    if chain == scope {
+        kind.to_string()
+    } else {
+        format!("{}!parent()-walk={:?}", kind, chain)
+    }
+}
+
 impl FL {
     fn push<C: Collect + for<'a> LookupSpan<'a>>(&self, kind: &str, name: &str, ctx: &Context<'_, C>, scope: Vec<String>) {
         let e = FEv {
@@ -319,16 +338,18 @@ where
     C: Collect + for<'a> LookupSpan<'a>,
 {
     fn on_new_span(&self, a: &span::Attributes<'_>, id: &span::Id, ctx: Context<'_, C>) {
-        let scope = ctx.span_scope(id).map(|s| s.map(|x| x.name().to_string()).collect()).unwrap_or_default();
-        self.push("new_span", a.metadata().name(), &ctx, scope);
+        let scope: Vec<String> = ctx.span_scope(id).map(|s| s.map(|x| x.name().to_string()).collect()).unwrap_or_default();
+        let kind = parent_walk_kind("new_span", ctx.span(id), &scope);
+        self.push(&kind, a.metadata().name(), &ctx, scope);
     }
     fn on_record(&self, id: &span::Id, _v: &span::Record<'_>, ctx: Context<'_, C>) {
         let n = ctx.span(id).map(|s| s.name().to_string()).unwrap_or_else(|| "<invisible>".into());
         self.push("record", &n, &ctx, vec![]);
     }
     fn on_event(&self, e: &Event<'_>, ctx: Context<'_, C>) {
-        let scope = ctx.event_scope(e).map(|s| s.map(|x| x.name().to_string()).collect()).unwrap_or_default();
-        self.push("event", e.metadata().name(), &ctx, scope);
+        let scope: Vec<String> = ctx.event_scope(e).map(|s| s.map(|x| x.name().to_string()).collect()).unwrap_or_default();
+        let kind = parent_walk_kind("event", ctx.event_span(e), &scope);
+        self.push(&kind, e.metadata().name(), &ctx, scope);
     }
     fn on_enter(&self, id: &span::Id, ctx: Context<'_, C>) {
         let n = ctx.span(id).map(|s| s.name().to_string()).unwrap_or_else(|| "<invisible>".into());
